@@ -1081,6 +1081,12 @@ class Inputs:
         self.concrete = values is not None
         self.violated_assumption: str | None = None
         self.decl: dict[str, dict] = {}
+        self.pub: dict[str, Any] = {}
+
+    def publish(self, name: str, term: Any) -> None:
+        """Make a harness-computed predicate available to known-finding
+        region expressions."""
+        self.pub[name] = term
 
     # -- integers
     def int(self, name: str, lo: int | None = None, hi: int | None = None):
@@ -1184,6 +1190,8 @@ class Inputs:
             if d["kind"] == "real":
                 k = z3.Int(name + "!grid")
                 cs.append(d["term"] == z3.ToReal(k) / (2**e))
+            if "prefer" in d:
+                cs.append(d["prefer"])
         return cs
 
 
@@ -1441,7 +1449,9 @@ def _inputs_phase(self, name: str, N: int = 16, lo_turns: int = -4, hi_turns: in
     if self.concrete:
         return builtins.int(self.values[name]) * (2 * math.pi / N)
     t = z3.Int(name)
-    self.decl[name] = {"kind": "int", "term": t, "proxy": SPhase(t, N)}
+    # models inside one positive turn replay exactly in binary64 (equal
+    # angles are then the same float); tried first when a model is extracted
+    self.decl[name] = {"kind": "int", "term": t, "proxy": SPhase(t, N), "prefer": z3.And(t >= 0, t < N)}
     ctx().assume(z3.And(t >= lo_turns * N, t <= hi_turns * N))
     return SPhase(t, N)
 
